@@ -95,6 +95,11 @@ func check(input string) (class string, err error) {
 		if strings.Contains(dump, "queryparser.(*lexer).nextItem") && !strings.Contains(dump, "queryparser.(*lexer).run") {
 			return "hang", fmt.Errorf("ParseQuery does not terminate: parser blocked in nextItem with no lexer goroutine alive")
 		}
+		// every goroutine inside the parser package parked on one of its own
+		// channels, unchanged over 5 s: nobody is left to wake the call
+		if g, ok := fix.Standstill("queryparser.ParseQuery"); ok {
+			return "hang", fmt.Errorf("ParseQuery does not terminate: %s", clip(g, 1500))
+		}
 		panic("INFRA: ParseQuery slow (>20s) but not provably stuck")
 	}
 	if o.pan != nil {
@@ -447,6 +452,17 @@ func fixedCases() []*Case {
 		cs = append(cs, &Case{Input: strings.Repeat("(", depth) + `a="1"` + strings.Repeat(")", depth-1), Source: "deep"})
 		cs = append(cs, &Case{Input: strings.Repeat(`a="1" & `, depth) + `b=$1`, Source: "deep"})
 		cs = append(cs, &Case{Input: strings.Repeat(`(a="1" | `, depth) + `b=$1` + strings.Repeat(")", depth), Source: "deep"})
+	}
+	// a syntax error followed by a long remainder that ends inside or right
+	// after a multi-byte character (whoever quotes "the text near the error"
+	// has to cut it somewhere)
+	for _, base := range []string{`a = = "1" `, `a = "1" ) `, `a b `, `& `, `a = "1" ; , `} {
+		for _, pad := range []int{40, 60, 63, 64, 65, 70, 128, 300} {
+			for _, tail := range []string{"\x80\x80\x80", "é", "\xe6\x97", "日", "\xf0\x9f\x92", "💩"} {
+				cs = append(cs, &Case{Input: base + strings.Repeat("z", pad) + tail, Source: "error-then-long-tail"})
+				cs = append(cs, &Case{Input: base + `"` + strings.Repeat("é", pad/2) + tail, Source: "error-then-long-tail"})
+			}
+		}
 	}
 	// more than 65,536 of something in one sentence: operators of one flat
 	// chain, negations (flat and nested), group-by fields
